@@ -45,6 +45,12 @@ REWRITE_GROUPS["path_utils"] = {
                   "#[allow(unused_macros)] macro_rules! vec { () => { Vec::new() }; }", 1)],
 }
 
+REWRITE_GROUPS["indexmap"] = {
+    "crates": ["semantics"],
+    "rewrites": [("crates/semantics/src/schema_extension_resolver/extension_list.rs", "use indexmap::IndexMap;",
+                  "use verif_models::vmap::IndexMap;", 1)],
+}
+
 SW = "crates/sourcemap-writer/src/"
 
 PROPS = {}
@@ -108,3 +114,48 @@ PROPS["C20"] = {
           "a, b: / + up to 2 symbolic components, NO no-climb precondition; panic freedom only", timeout=900, mem_gb=12, has_mutant=False),
     ],
 }
+
+SER = "crates/semantics/src/schema_extension_resolver/"
+VEC_CORE = ["ast", "semantics", "error", "type-system", "utils"]
+VEC_NOTE = ("alloc::vec::Vec is replaced, in the crates {crates}, by the boxed fixed-capacity model kv/models/src/bvec.rs "
+            "(capacity 8, Deref<[T]>, same sequence contract; validated natively against std Vec on >50000 operation scripts incl. drop counts); "
+            "done by adding an import line to each file, no function body is edited")
+PROPS["C11"] = {
+    "rewrite_groups": ["indexmap"],
+    "vec_model": VEC_CORE,
+    "assumptions": [
+        VEC_NOTE.format(crates=", ".join(VEC_CORE)),"Kani/CBMC/cadical are sound; rustc MIR is the semantics of the source"],
+    "outside": "file concatenation in cli/src/main.rs",
+    "harnesses": [
+        H("extlist_script_n2", "nitrogql-semantics", SER + "extension_list.rs", "semantics/extlist_h.rs", "verif_extlist",
+          ["ExtensionList::new", "ExtensionList::set_original", "ExtensionList::add_extension", "ExtensionList::into_original_and_extensions"],
+          "every script of 2 operations, each symbolically set_original/add_extension, name in {A, B, unnamed}, position line<3 col<2; instantiation ExtensionList<Orig, Ext> with small Copy item types",
+          timeout=900, mem_gb=12),
+        H("merge_scalar_concat", "nitrogql-semantics", SER + "mod.rs", "semantics/merge_h.rs", "verif_merge", ["merge_scalar_definition"],
+          "original + 0..2 extensions, each list 0..2 entries", timeout=900, mem_gb=12),
+        H("merge_union_concat", "nitrogql-semantics", SER + "mod.rs", "semantics/merge_h.rs", "verif_merge", ["merge_union_definition", "unzip2"],
+          "original + 0..2 extensions, each list 0..2 entries", timeout=900, mem_gb=12),
+    ],
+}
+
+CK = "crates/checker/src/"
+_TC_OUT = ("everything else in the operation checker: field existence, leaf/composite selection rules, argument and literal typing "
+           "(check_arguments, check_value, is_value_compatible_type_def), directive rules, fragment applicability, duplicate-name scans, the default-value "
+           "allowance of IsVariableUsageAllowed at the call site, and the generate-is-gated-on-check consequence")
+for _pid, _pre in (("C03", "c03_typecompat_sound"), ("C04", "c04_typecompat_complete")):
+    PROPS[_pid] = {
+        "rewrite_groups": [],
+        "assumptions": ["types are well-formed GraphQL types (no `T!!`)", "Kani/CBMC/cadical are sound; rustc MIR is the semantics of the source"],
+        "outside": _TC_OUT,
+        "harnesses": [
+            H(_pre + "_d2", "nitrogql-checker", CK + "common.rs", "checker/typecompat_h.rs", "verif_typecompat", ["common::check_type_compatibility"],
+              "variable type and location type: all 6x6 well-formed wrapper nestings of depth <= 2 (symbolic selector), names symbolic over {A, B}; instantiation S = interned-name type", timeout=900, mem_gb=10),
+            H(_pre + "_d3", "nitrogql-checker", CK + "common.rs", "checker/typecompat_h.rs", "verif_typecompat", ["common::check_type_compatibility"],
+              "variable type and location type: every wrapper nesting of depth <= 3 over names {A, B} (symbolic)", tiers=("thorough",), timeout=3600, mem_gb=16),
+        ],
+    }
+
+# C11: every harness written for it ran out of memory or time (see DESIGN.md appendix): the merge_*
+# functions and ExtensionList are iterator-adaptor chains over heap structs with String keys, which
+# CBMC cannot convert within 40 GB even at 1-element bounds. Kept for the record, not claimed.
+UNCLAIMED = {"C11": PROPS.pop("C11")}
